@@ -32,6 +32,7 @@ type Solver struct {
 	Fallbacks []string // extra solver command lines tried (one-shot) when the primary answers unknown
 	FallbackUsed map[string]int
 	FallbackTimeoutS int
+	NoFallback bool // set while asking branch-feasibility questions (unknown = keep the branch)
 	fbModel  map[string]string
 	wantVars []string
 }
@@ -187,9 +188,22 @@ func (s *Solver) rnAxioms(t *Term) {
 	r := fmt.Sprintf("t%d", t.ID)
 	u := ratSMT(ulp53, SReal)
 	tiny := ratSMT(tinyAbs, SReal)
-	// |r - e| <= u*|e| + tiny
-	s.send(fmt.Sprintf("(assert (let ((ae (ite (>= %s 0.0) %s (- %s)))) (and (<= (- %s %s) (+ (* %s ae) %s)) (<= (- %s %s) (+ (* %s ae) %s)))))",
-		e, e, e, r, e, u, tiny, e, r, u, tiny))
+	arg := t.Args[0]
+	if arg.Lo != nil && arg.Hi != nil {
+		// bounded argument: |r - e| <= 2^-53 * max|e| + tiny  (a constant; keeps the query in difference logic)
+		mx := new(big.Rat).Abs(arg.Lo)
+		if h := new(big.Rat).Abs(arg.Hi); h.Cmp(mx) > 0 {
+			mx = h
+		}
+		d := new(big.Rat).Mul(ulp53, mx)
+		d.Add(d, tinyAbs)
+		ds := ratSMT(d, SReal)
+		s.send(fmt.Sprintf("(assert (and (<= (- %s %s) %s) (<= (- %s %s) %s)))", r, e, ds, e, r, ds))
+	} else {
+		// |r - e| <= u*|e| + tiny
+		s.send(fmt.Sprintf("(assert (let ((ae (ite (>= %s 0.0) %s (- %s)))) (and (<= (- %s %s) (+ (* %s ae) %s)) (<= (- %s %s) (+ (* %s ae) %s)))))",
+			e, e, e, r, e, u, tiny, e, r, u, tiny))
+	}
 	s.send(fmt.Sprintf("(assert (=> (>= %s 0.0) (>= %s 0.0)))", e, r))
 	s.send(fmt.Sprintf("(assert (=> (<= %s 0.0) (<= %s 0.0)))", e, r))
 	if t.Args[0].IsIntReal {
@@ -275,7 +289,7 @@ func (s *Solver) Check() SatRes {
 		res = Unknown
 	}
 	s.fbModel = nil
-	if res == Unknown && len(s.Fallbacks) > 0 {
+	if res == Unknown && len(s.Fallbacks) > 0 && !s.NoFallback {
 		res, s.fbModel = s.fallback(s.wantVars)
 	}
 	d := time.Since(t0)
@@ -351,6 +365,8 @@ func (s *Solver) noteFallback(name string) {
 
 // CheckWith checks satisfiability of the stack plus extra terms (scoped).
 func (s *Solver) CheckWith(extra ...*Term) SatRes {
+	s.NoFallback = true
+	defer func() { s.NoFallback = false }()
 	s.Push()
 	for _, e := range extra {
 		s.Assert(e)
